@@ -814,6 +814,21 @@ impl<'a> Gen<'a> {
             let at = self.rng.below(body.len() + 1);
             body.insert(at, setg("grec", call("rec", vec![int(k)])));
         }
+        if self.prof.errors > 0 && self.prof.natives && self.rng.below(4) == 0 {
+            // two one-function modules next to each other: the first function has a single card, the second starts with the
+            // failing card (same function number and same card index in different modules: only the namespace tells them apart)
+            let first = match self.rng.below(4) {
+                0 => native("fail0", vec![]),
+                1 => native("missing_native", vec![]),
+                2 => setg("gz", card("GetProperty", vec![read("never_assigned_anywhere"), strlit("x")])),
+                _ => card("Get", vec![card("CreateTable", vec![]), int(-1)]),
+            };
+            fns.push(F { name: "ma.one".into(), params: vec![], body: vec![setg("gone", int(1))] });
+            fns.push(F { name: "mb.work".into(), params: vec![], body: vec![first, card("Return", vec![int(0)])] });
+            let at = self.rng.below(body.len() + 1);
+            body.insert(at, setg("gw", call("mb.work", vec![])));
+            body.insert(at, setg("go", call("ma.one", vec![])));
+        }
         fns[0].body = body;
         let mut natives = vec![];
         if self.prof.natives {
